@@ -383,7 +383,7 @@ def _native_generator_witness(seed):
 PY_WEIGHTS = dict(wd=1.5, wi=2.0, wo=0.25, wn=0.5, wb=0)       # plain Python numbers, one of them the integer 0
 
 
-def loss_modes(kind, system, mode, with_parts, eq_order=("a", "b"), python_weights=False):
+def loss_modes(kind, system, mode, with_parts, eq_order=("a", "b"), python_weights=False, sys_form=None):
     """python_weights: the loss weights are plain Python numbers (they stay Python numbers when the loss is used eagerly or
     closed over, and become traced scalars when the loss is an argument of a jitted function) and the network has two
     observed outputs; a NaN among the border points probes that a term switched off by a zero weight is treated alike.
@@ -395,7 +395,7 @@ def loss_modes(kind, system, mode, with_parts, eq_order=("a", "b"), python_weigh
             names = S.names() + ["acol"]
             inputs = S.inputs() + [Inp("acol", (2, 1))]
             def call(a):
-                loss, pd, batch = S.build(a, {}, tuple(S.uk) if kind != "statio" else (), (S.uk[0],) if with_parts else (), ())
+                loss, pd, batch = S.build(a, sys_form or {}, tuple(S.uk) if kind != "statio" else (), (S.uk[0],) if with_parts else (), ())
                 if with_parts:
                     batch = put_at(lambda b: b.param_batch_dict, batch, {"a": a["acol"]})
                 return loss, pd, batch
@@ -434,7 +434,7 @@ def loss_modes(kind, system, mode, with_parts, eq_order=("a", "b"), python_weigh
                                          "nonstatio": "LossPDE" if system else "LossPDENonStatio"}[kind]
     return EqObligation(f"C20/modes/{nm}.evaluate[{kind},{mode}==eager,param_and_obs_parts={int(with_parts)}"
                         f"{'' if tuple(eq_order) == ('a', 'b') else ',eq_params_written_' + '/'.join(eq_order)}"
-                        f"{',python_number_weights' if python_weights else ''}]", build,
+                        f"{',python_number_weights' if python_weights else ''}{',per_key_weights_written_in_reverse_order' if sys_form else ''}]", build,
                         [(L if kind == "ODE" else PD) + nm + ".evaluate"])
 
 
@@ -474,6 +474,8 @@ def obligations(tier):
             for mode in ("jit", "value_and_grad"):
                 obs.append(loss_modes(kind, system, mode, True))
             obs.append(loss_modes(kind, system, "jit_call", False))
+        rev = {"dyn_loss": "dict_rev", "initial_condition": "dict_rev", "observations": "dict_rev", "boundary_loss": "dict_rev"}
+        obs.append(loss_modes(kind, True, "jit", True, sys_form=rev))      # weight dictionaries written in another order than the equations
         for mode in ("jit", "value_and_grad"):
             obs.append(loss_modes(kind, False, mode, True, eq_order=("b", "a")))
             obs.append(loss_modes(kind, False, mode, False, python_weights=True))
